@@ -30,6 +30,63 @@ def ns_inv(interp, path, v):
     return None
 
 
+def install_ns_ids_contract(I):
+    """namespaceids_t / ns_ids_t by contract for ONE identifier: namespaceids_t(s) == NamespaceIds([s]) when
+    is_ident(s) - the instance L = [s] of the notation round trip proved under C14.  Other arguments run the real code."""
+    from pyvc.values import StrT
+    NS = I.load_module('dznpy.scoping').globals['NamespaceIds']
+    names = ['dznpy.scoping.namespaceids_t', 'dznpy.scoping.ns_ids_t']
+
+    def contract(i, path, args, kw):
+        v = args[0] if args else kw.get('value')
+        if isinstance(v, StrT) and not kw:
+            z = ops.to_zstr(v)
+            if z3.is_app(z) and z.decl().kind() == z3.Z3_OP_SEQ_NTH:
+                path.add_index(z.arg(1))       # the class invariant of the list's owner is instantiated there
+            ent = path.entails(ops.is_ident(z, path))
+            if os.environ.get('PYVC_DEBUG_NS'):
+                print('ns_ids_t contract:', z, 'entails is_ident:', ent, 'hyps:', len(getattr(path, 'hyps', [])))
+            if ent:
+                return i.call(NS, [], {'items': SeqV(SeqT([LitB([v])]))}, path)
+        saved = {n: i.overrides.pop(n) for n in names if n in i.overrides}
+        try:
+            return i.call_function(i.get_function('dznpy.scoping.namespaceids_t'), args, kw, path)
+        finally:
+            i.overrides.update(saved)
+    for n in names:
+        I.overrides[n] = contract
+    return names
+
+
+def install_ns_add_contract(I, ctx=None):
+    """NamespaceIds.__add__ by its contract (proved under C14): result is a fresh NamespaceIds whose items are
+    self.items ++ other.items; requires the class invariant of both operands (every instance satisfies it: established
+    by the constructor, preserved by += - C14), so the result's validation cannot fail and is not re-executed."""
+    from pyvc.values import DtV
+    NS = I.load_module('dznpy.scoping').globals['NamespaceIds']
+    qn = 'dznpy.scoping.NamespaceIds.__add__'
+    if ctx is not None:
+        note = 'callee by contract: NamespaceIds.__add__ (proved under C14); class invariant of NamespaceIds assumed ' \
+               'for every instance that reaches +'
+        if note not in ctx.assumptions:
+            ctx.assumptions.append(note)
+
+    def contract(i, path, args, kw):
+        if len(args) == 2 and not kw and all(isinstance(v, (DtV, ObjV)) and v.cls is NS for v in args):
+            ia, ib = (i.getattr_(v, 'items', path) for v in args)
+            if isinstance(ia, SeqV) and isinstance(ib, SeqV):
+                res = ObjV(NS, {'items': SeqV(SeqT(tuple(ia.term.blocks) + tuple(ib.term.blocks)))})
+                res.fresh_in = i.act_counter
+                return res
+        saved = i.overrides.pop(qn)
+        try:
+            return i.call_function(i.get_function(qn), args, kw, path)
+        finally:
+            i.overrides[qn] = saved
+    I.overrides[qn] = contract
+    return qn
+
+
 def i_getattr(I, obj, name, p):
     return I.getattr_(obj, name, p)
 
@@ -214,6 +271,8 @@ def run_reroute(ctx: Ctx, which=('reroute_in_events', 'reroute_out_events', 'rer
         I.class_invs.update(saved)
         I.overrides.pop('dznpy.ast_view.find_fqn', None)
         I.overrides.pop(f'{PR}.find_fqn', None)
+        for n in ('dznpy.scoping.namespaceids_t', 'dznpy.scoping.ns_ids_t', 'dznpy.scoping.NamespaceIds.__add__'):
+            I.overrides.pop(n, None)
 
 
 def run_claim_release(ctx: Ctx):
@@ -243,6 +302,7 @@ def run_claim_release(ctx: Ctx):
     I.overrides['dznpy.ast_view.find_fqn'] = find_fqn_contract
     I.overrides[f'{PR}.find_fqn'] = find_fqn_contract
     I.class_invs['dznpy.scoping.NamespaceIds'] = [ns_inv]
+    install_ns_add_contract(I, ctx)
 
     def mk_args(p):
         port = symobj.fresh_value(I, p, TypeDesc('cls', CppPortItf), 'in_port', opt_choice=lambda n: n.endswith('multiclient'))
@@ -296,6 +356,9 @@ def run_claim_release(ctx: Ctx):
         I.class_invs.update(saved)
         I.overrides.pop('dznpy.ast_view.find_fqn', None)
         I.overrides.pop(f'{PR}.find_fqn', None)
+        I.overrides.pop('dznpy.scoping.NamespaceIds.__add__', None)
+        for n in ('dznpy.scoping.namespaceids_t', 'dznpy.scoping.ns_ids_t', 'dznpy.scoping.NamespaceIds.__add__'):
+            I.overrides.pop(n, None)
 
 
 def run_portitf(ctx: Ctx):
@@ -397,3 +460,74 @@ def run_facilities(ctx: Ctx):
                     lambda i, p, a, k, sname=sname: i.call_function(spec.globals[sname], a, k, p),
                     lambda p, origin=origin, swap=swap: mk(p, origin, swap), witness=None,
                     text=f'{fname}: members, accessor and checks follow the configured facilities origin')
+
+
+def run_multiclient_cfg(ctx: Ctx):
+    """C04 C13: check_multiclient_cfg for any interface (any number of events), any settings; find_fqn replaced by its
+    contract (C14): it returns the declarations ghost.lookup(name, scope) - any number, of any kinds."""
+    I = ctx.interp
+    ghostlib.install(I)
+    I.model_strings_break_free = True
+    pr = I.load_module(PR)
+    av = I.load_module('dznpy.ast_view')
+    at = I.load_module('dznpy.ast')
+    ps = I.load_module('dznpy.adv_shell.port_selection')
+    spec = I.load_module('specs.wiring_unbounded')
+    ghost_lookup = I.overrides['specs.ghost.lookup']
+
+    def find_fqn_contract(i, path, args, kw):
+        fct, ids = args[0], args[1]
+        scope = args[2] if len(args) > 2 else kw['as_of_inner_scope']
+        items = ghost_lookup(i, path, [fct, ids, scope], {})
+        return ObjV(av.globals['FindResult'], {'items': items})
+    saved = dict(I.class_invs)
+    I.class_invs['dznpy.scoping.NamespaceIds'] = [ns_inv]
+    I.overrides['dznpy.ast_view.find_fqn'] = find_fqn_contract
+    I.overrides[f'{PR}.find_fqn'] = find_fqn_contract
+    ns_contract_names = install_ns_ids_contract(I)
+    install_ns_add_contract(I, ctx)
+
+    def unique_event_names(p, itf):
+        # model validity: the events of an interface have pairwise different names
+        from pyvc.path import fresh_name
+        evs = i_getattr(I, i_getattr(I, itf, 'events', p), 'elements', p)
+        z = I.to_zseq(evs.term)
+        nm = I.sorts.accessor(at.globals['Event'], 'name')
+        a, b = z3.Int(fresh_name('u')), z3.Int(fresh_name('u'))
+        p.add_hyp([a, b], z3.Implies(z3.And(a >= 0, b >= 0, a < z3.Length(z), b < z3.Length(z), a != b),
+                                     nm(z[a]) != nm(z[b])), 'unique event names')
+
+    def mk(p, present):
+        from pyvc.interp import OpaqueV
+        cfg = None
+        if present:
+            cfg = symobj.fresh_value(I, p, TypeDesc('cls', ps.globals['MultiClientPortCfg']), 'in_mc')
+            # class invariant of MultiClientPortCfg (its __post_init__): no empty setting
+            for n in ('port_name', 'claim_event_name', 'release_event_name'):
+                p.assume(z3.Length(ops.to_zstr(i_getattr(I, cfg, n, p))) > 0)
+            rv = i_getattr(I, cfg, 'claim_granting_reply_value', p)
+            p.assume(z3.Length(I.sorts.accessor(rv.cls, 'items')(rv.expr)) > 0)
+        cand = ops.mkstr([z3.String('in_candidate')])
+        itf = I.fresh_dt(at.globals['Interface'], 'in_itf', p)
+        unique_event_names(p, itf)
+        fct = OpaqueV(None, 'the file contents (only passed on to find_fqn)')
+        a = [cfg, cand, itf, fct]
+        return a, a
+
+    f = I.get_function(f'{PR}.check_multiclient_cfg')
+    try:
+        ctx.functions[f'{PR}.check_multiclient_cfg'] = 'proved (any interface, any settings; find_fqn by contract)'
+        for present in (False, True):
+            refines(ctx, f'processing.check_multiclient_cfg{".cfg" if present else ""}', f'{PR}.check_multiclient_cfg',
+                    lambda i, p, a, k: i.call_function(f, a, k, p),
+                    lambda i, p, a, k: i.call_function(spec.globals['multiclient_fixture'], a, k, p),
+                    lambda p, present=present: mk(p, present), witness=None,
+                    text='multi-client settings: fixture with the configured events and granting reply, or a '
+                         'MultiClientCfgError')
+    finally:
+        I.class_invs.clear()
+        I.class_invs.update(saved)
+        I.overrides.pop('dznpy.ast_view.find_fqn', None)
+        I.overrides.pop(f'{PR}.find_fqn', None)
+        for n in ('dznpy.scoping.namespaceids_t', 'dznpy.scoping.ns_ids_t', 'dznpy.scoping.NamespaceIds.__add__'):
+            I.overrides.pop(n, None)
